@@ -19,6 +19,17 @@ enum Op {
     NewSection(String, Option<String>),
     RemoveSection(String, Option<String>),
     Rename(String, Option<String>, String, Option<String>),
+    /// `remove_section_by_id` of the first (0) / middle (1) / last (2) section with that name and subsection, in file order
+    RemoveById(String, Option<String>, u8),
+}
+
+fn pick_kth(len: usize, k: u8) -> Option<usize> {
+    match (len, k) {
+        (0, _) => None,
+        (_, 0) => Some(0),
+        (l, 1) => Some(l / 2),
+        (l, _) => Some(l - 1),
+    }
 }
 
 #[derive(Serialize, Deserialize, Hash, Clone, Debug)]
@@ -40,6 +51,8 @@ fn initial_files() -> Vec<&'static [u8]> {
         b"[a]\n\tk = x\\\n  y\n\tj = 2\n[c]\n\tk = p\\\n q\\\n r ; t\n\tj = 5 # five\n\tl = 6\n",
         // the same key repeated: single k, multi-line j with comment, multi-line k (the last k) followed by l; a.b: multi-line k followed by a single k
         b"[a]\n\tk = 1\n\tj = m\\\n n # cj\n\tk = x\\\n y\n\tl = 7\n[a \"b\"]\n\tk = u\\\n v\n\tk = w\n",
+        // three sections of the same name, and three with the same name and subsection, the same key in each
+        b"[a]\n\tk = 1\n[a \"b\"]\n\tk = 2\n[a]\n\tk = 3\n[a \"b\"]\n\tk = 4\n[a]\n\tk = 5\n[a \"b\"]\n\tk = 6\n",
         // CRLF continuation followed by another key
         b"[c]\r\n\tk = a\\\r\n b\r\n\tj = 1\r\n",
     ]
@@ -68,6 +81,11 @@ fn ops() -> Vec<Op> {
         v.push(Op::RemoveValue(s(sec), None, s("j")));
         v.push(Op::DeleteAll(s(sec), None, s("j")));
         v.push(Op::SetAll(s(sec), None, s("j"), B(b"z".to_vec())));
+    }
+    for sub in [None, Some("b")] {
+        for k in 0..3u8 {
+            v.push(Op::RemoveById(s("a"), o(sub), k));
+        }
     }
     v.push(Op::Rename(s("a"), None, s("c"), None));
     v.push(Op::Rename(s("a"), o(Some("b")), s("a"), None));
@@ -150,12 +168,25 @@ fn apply_model(m: &mut Vec<Sec>, comments: &mut Vec<Option<Vec<Vec<u8>>>>, op: &
                 m[i].sub = s2.as_ref().map(|s| s.as_bytes().to_vec());
             }
         }
+        Op::RemoveById(n, s, k) => {
+            let idx: Vec<usize> = m.iter().enumerate().filter(|(_, x)| matches(x, n, s)).map(|(i, _)| i).collect();
+            if let Some(j) = pick_kth(idx.len(), *k) {
+                m.remove(idx[j]);
+                comments.remove(idx[j]);
+            }
+        }
     }
 }
 
 /// The real thing: load `text`, apply `op` through the public mutation API, serialize.
 fn apply_real(text: &[u8], op: &Op) -> Result<Vec<u8>, String> {
     let mut file = load(text).map_err(|e| format!("state does not load: {e}"))?;
+    apply_real_on(&mut file, op)?;
+    Ok(file.to_bstring().into())
+}
+
+/// Apply `op` to a live in-memory file.
+fn apply_real_on(file: &mut gix_config::File<'_>, op: &Op) -> Result<(), String> {
     let sub = |s: &Option<String>| -> Option<Vec<u8>> { s.as_ref().map(|s| s.as_bytes().to_vec()) };
     fn bs(s: &Option<Vec<u8>>) -> Option<&BStr> {
         s.as_deref().map(|s| s.as_bstr())
@@ -200,8 +231,22 @@ fn apply_real(text: &[u8], op: &Op) -> Result<Vec<u8>, String> {
             let s = sub(s);
             let _ = file.rename_section(n.as_str(), bs(&s), n2.clone(), sub(s2).map(|s| Cow::Owned(s.into())));
         }
+        Op::RemoveById(n, s, k) => {
+            let s = sub(s);
+            // sections in file order, matched on the header itself (independent of the name lookup tables)
+            let ids: Vec<_> = file
+                .sections_and_ids()
+                .filter(|(sec, _)| sec.header().name().eq_ignore_ascii_case(n.as_bytes()) && sec.header().subsection_name().map(|x| x.to_vec()) == s)
+                .map(|(_, id)| id)
+                .collect();
+            if let Some(j) = pick_kth(ids.len(), *k) {
+                if file.remove_section_by_id(ids[j]).is_none() {
+                    return Err("remove_section_by_id returned None for an existing id".into());
+                }
+            }
+        }
     }
-    Ok(file.to_bstring().into())
+    Ok(())
 }
 
 /// comments per section (index aligned with `model`), frontmatter comments first.
@@ -334,8 +379,68 @@ fn step_inner(text: &[u8], op: &Op) -> Result<Step, String> {
         (Op::NewSection(..), _) => "new-section",
         (Op::RemoveSection(..), _) => "remove-section",
         (Op::Rename(..), _) => "rename-section",
+        (Op::RemoveById(..), _) => "remove-section-by-id",
     };
     Ok(Step { text: new, class })
+}
+
+/// Several edits on ONE in-memory `File` (no reload in between), compared with the model applied step by step.
+fn memory_eval(h: &History) -> vkit::Verdict {
+    let files = initial_files();
+    let Some(text) = files.get(h.file) else { vkit::machinery!("no such initial file") };
+    let mut file = match load(text) {
+        Ok(f) => f,
+        Err(e) => vkit::machinery!("initial file does not load: {e}"),
+    };
+    let mut expect = model(&file);
+    let (front, per) = match comments_of(text) {
+        Ok(c) => c,
+        Err(e) => vkit::machinery!("initial file: {e}"),
+    };
+    let mut comments: Vec<Option<Vec<Vec<u8>>>> = per.into_iter().map(Some).collect();
+    let m0 = expect.clone();
+    let desc = format!("{:?} applied in memory to {}", h.ops, show(text));
+    for op in &h.ops {
+        // the known finding `set-on-implicit-boolean` is reported by sub `history`; sequences running into it end here
+        let now: Vec<u8> = file.to_bstring().into();
+        if set_targets_implicit(&now, op) {
+            return vkit::ok_trivial("memory/ends-at-known-finding");
+        }
+        apply_model(&mut expect, &mut comments, op);
+        match vkit::catch(|| apply_real_on(&mut file, op)) {
+            Ok(Ok(())) => {}
+            Ok(Err(e)) => return vkit::bad("api-error", format!("{op:?} in {desc}: {e}")),
+            Err(p) => return vkit::bad("panic", format!("{op:?} in {desc}: {p}")),
+        }
+    }
+    let new: Vec<u8> = file.to_bstring().into();
+    drop(file);
+    let got = match load(&new) {
+        Ok(f) => model(&f),
+        Err(e) => return vkit::bad("unparseable", format!("{desc} wrote {} which does not parse: {e}", show(&new))),
+    };
+    if lower_keys(got.clone()) != lower_keys(expect.clone()) {
+        return vkit::bad("wrong-content", format!("{desc} wrote {}; expected {} but gitoxide reads {}", show(&new), show_secs(&expect), show_secs(&got)));
+    }
+    let (front2, per2) = match comments_of(&new) {
+        Ok(c) => c,
+        Err(e) => return vkit::bad("unparseable", e),
+    };
+    if front2 != front {
+        return vkit::bad("comment-lost", format!("{desc} wrote {}: comments before the first section changed", show(&new)));
+    }
+    for (i, want) in comments.iter().enumerate() {
+        if let Some(want) = want {
+            if per2.get(i) != Some(want) {
+                return vkit::bad("comment-lost", format!("{desc} wrote {}: comments of section #{i} changed", show(&new)));
+            }
+        }
+    }
+    if expect == m0 {
+        vkit::ok_trivial("memory/no-op")
+    } else {
+        vkit::ok(if h.ops.iter().any(|o| matches!(o, Op::RemoveById(..))) { "memory/with-remove-by-id" } else { "memory/sequence" })
+    }
 }
 
 /// What gitoxide reads from `text`, in git's listing form.
@@ -410,11 +515,14 @@ fn git_check(text: &[u8], git: &Option<Flat>) -> Result<(), String> {
 
 pub fn run(run: &'static Run) {
     let depth = run.pick(2usize, 3);
+    let mlen = run.pick(2usize, 3);
     let files = initial_files();
     let ops = ops();
     run.rule(format!(
         "states = serialized config texts reachable from {} initial files (duplicate sections, comments, CRLF + continuation + implicit boolean, upper case + legacy header, header and key on one line + empty section, no final newline, empty file, continuation-line values with 1 and 2 continuations with/without trailing comment placed before other keys incl. a repeated key name, CRLF continuation before another key) by <= {depth} edits; \
          {} edits: set/push (2 values: `1` and one needing quotes+escapes) / set-all / remove / delete-all of key k in a, a.b, c and of its neighbour j in a, c; new/remove section a, a.b, c; 4 renames; breadth-first with dedup on the text. \
+         + remove_section_by_id of the first/middle/last section named a / a.b; \
+         sub `memory`: every sequence of 2..={mlen} of these edits applied to ONE in-memory File per initial file (no reload in between), result compared with the model applied step by step; \
          each transition: parse state -> one real API call -> to_bstring; validated against an ordered-list reference model (sections, keys, values), comment preservation per section, and `git config --list -z` on every distinct new state",
         files.len(),
         ops.len()
@@ -423,6 +531,24 @@ pub fn run(run: &'static Run) {
     run.assume("comments of a section from which a value was removed are not compared (a same-line comment may go with the value); every other comment must survive in its section, in order");
     run.assume("git 2.39.5 lists the written text (batched through an include file, --show-origin); it must equal gitoxide's own reading of that text, which in turn must equal the model");
     run.budget_secs(run.pick(36.0, 560.0));
+
+    // ---- sub `memory`: all sequences of edits on one in-memory File ----
+    {
+        let ops = &ops;
+        let nfiles = files.len();
+        run.sub_with(
+            "memory",
+            vkit::Opts::default().chunk(1 << 14),
+            |emit| {
+                for file in 0..nfiles {
+                    vkit::enumerate::seqs(ops, 2, mlen, |seq| emit(History { file, ops: seq.to_vec() }));
+                }
+            },
+            memory_eval,
+        );
+        run.mc_transitions(run.sub_evaluations("memory") * 2);
+        run.mc_validated(run.sub_evaluations("memory"));
+    }
 
     // replay: one history, step by step, git called per step
     if let Some(h) = run.replay_case::<History>("history") {
@@ -551,7 +677,7 @@ pub fn run(run: &'static Run) {
     run.cov("oracle_calls_git", git_calls);
     run.cov("edits", ops.len());
     run.cov("deadlocks", 0);
-    for c in ["set", "push", "remove-value", "set-all", "delete-all", "new-section", "remove-section", "rename-section", "no-op", "git-agrees"] {
+    for c in ["set", "push", "remove-value", "set-all", "delete-all", "new-section", "remove-section", "remove-section-by-id", "rename-section", "no-op", "git-agrees", "memory/sequence", "memory/with-remove-by-id"] {
         run.require(&format!("outcome {c} reached"), run.outcome_count(c) > 0);
     }
 }
